@@ -166,6 +166,9 @@ fn tokens(s: &str) -> Vec<String> {
     out
 }
 
+/// Files longer than this are not sent to the body model.
+const BODY_LIMIT: usize = 6_000;
+
 /// Texts longer than this (in characters) are not sent to the CST model.
 const CST_LIMIT: usize = 10_000;
 /// … and the (well-formed) output of tftopl only up to this length.
@@ -595,6 +598,102 @@ fn gen_canonical(r: &mut Rng, depth: u32, out: &mut String) {
     }
 }
 
+/// The real `tfm::File::deserialize` (before validation), encoded exactly like `DrvC10.encBody`.
+fn real_body(bytes: &[u8]) -> String {
+    use tfm::ligkern::lang::{Operation, PostLigOperation as P};
+    let (r, warnings) = tfm::File::deserialize(bytes);
+    let f = match r {
+        Ok(f) => f,
+        Err(_) => return "err".into(),
+    };
+    let mut v: Vec<i64> = vec![];
+    let opt_str = |s: &Option<String>, v: &mut Vec<i64>| match s {
+        None => v.push(-1),
+        Some(s) => {
+            v.push(s.chars().count() as i64);
+            v.extend(s.chars().map(|c| c as i64));
+        }
+    };
+    let h = &f.header;
+    v.push(h.checksum.map(|x| x as i64).unwrap_or(-7));
+    v.push(h.design_size.0 as i64);
+    opt_str(&h.character_coding_scheme, &mut v);
+    opt_str(&h.font_family, &mut v);
+    v.push(match h.seven_bit_safe {
+        None => -1,
+        Some(b) => b as i64,
+    });
+    v.push(match h.face {
+        None => -1,
+        Some(face) => u8::from(face) as i64,
+    });
+    v.push(h.additional_data.len() as i64);
+    v.extend(h.additional_data.iter().map(|x| *x as i64));
+    v.push(f.smallest_char.0 as i64);
+    // the characters bc..=ec that have a char-info word: dims and tags are kept in two maps
+    let sfs = tfm::RawFile::deserialize(bytes).0.ok().map(|r| (r.begin_char.0 as i64, r.end_char.0 as i64, r.char_infos.len() / 4));
+    let (bc, ec, nci) = sfs.unwrap_or((1, 0, 0));
+    let n = ((ec + 1 - bc).max(0) as usize).min(nci);
+    v.push(n as i64);
+    for k in 0..n {
+        let c = tfm::Char((bc as usize + k) as u8);
+        v.push(c.0 as i64);
+        match f.char_dimens.get(&c) {
+            None => v.extend([0, 0, 0, 0, 0]),
+            Some(d) => v.extend([1, d.width_index.get() as i64, d.height_index as i64, d.depth_index as i64, d.italic_index as i64]),
+        }
+        match f.char_tags.get(&c) {
+            None => v.extend([0, 0, 0]),
+            Some(tfm::CharTag::Ligature(l)) => v.extend([1, 1, *l as i64]),
+            Some(tfm::CharTag::List(l)) => v.extend([1, 2, l.0 as i64]),
+            Some(tfm::CharTag::Extension(e)) => v.extend([1, 3, *e as i64]),
+        }
+    }
+    for t in [&f.widths, &f.heights, &f.depths, &f.italic_corrections] {
+        v.push(t.len() as i64);
+        v.extend(t.iter().map(|x| x.0 as i64));
+    }
+    let lk = &f.lig_kern_program;
+    v.push(lk.instructions.len() as i64);
+    for i in &lk.instructions {
+        v.push(i.next_instruction.map(|x| x as i64).unwrap_or(-1));
+        v.push(i.right_char.0 as i64);
+        match i.operation {
+            Operation::Kern(_) => v.extend([9, 0, 0, 0]),
+            Operation::KernAtIndex(k) => v.extend([0, k as i64, 0, 0]),
+            Operation::Ligature { char_to_insert, post_lig_operation, post_lig_tag_invalid } => {
+                let op = match post_lig_operation {
+                    P::RetainBothMoveNowhere => 0,
+                    P::RetainBothMoveToInserted => 1,
+                    P::RetainBothMoveToRight => 2,
+                    P::RetainLeftMoveNowhere => 3,
+                    P::RetainLeftMoveToInserted => 4,
+                    P::RetainRightMoveToInserted => 5,
+                    P::RetainRightMoveToRight => 6,
+                    P::RetainNeitherMoveToInserted => 7,
+                };
+                v.extend([1, char_to_insert.0 as i64, op, post_lig_tag_invalid as i64]);
+            }
+            Operation::EntrypointRedirect(t, flag) => v.extend([2, t as i64, 0, if flag { 0 } else { 5 }]),
+        }
+    }
+    v.push(lk.right_boundary_char.map(|c| c.0 as i64).unwrap_or(-1));
+    v.push(lk.left_boundary_char_entrypoint.map(|c| c as i64).unwrap_or(-1));
+    let mut pass: Vec<i64> = lk.passthrough.iter().map(|x| *x as i64).collect();
+    pass.sort();
+    v.push(pass.len() as i64);
+    v.extend(pass);
+    v.push(f.kerns.len() as i64);
+    v.extend(f.kerns.iter().map(|x| x.0 as i64));
+    v.push(f.extensible_chars.len() as i64);
+    for e in &f.extensible_chars {
+        v.extend([e.top.map(|c| c.0 as i64).unwrap_or(0), e.middle.map(|c| c.0 as i64).unwrap_or(0), e.bottom.map(|c| c.0 as i64).unwrap_or(0), e.rep.0 as i64]);
+    }
+    v.push(f.params.len() as i64);
+    v.extend(f.params.iter().map(|x| x.0 as i64));
+    format!("ok {} {}", if warnings.is_empty() { 0 } else { 1 }, join(&v))
+}
+
 struct Clamp {
     table: [usize; 4],
     nl: usize,
@@ -603,6 +702,8 @@ struct Clamp {
     post: Vec<(u8, [u8; 4])>,
     pre_tags: Vec<(u8, tfm::CharTag)>,
     post_tags: Vec<(u8, tfm::CharTag)>,
+    /// for every instruction: the redirect target if it is an entry-point redirect
+    redirects: Vec<Option<u16>>,
     post_chars: Vec<u8>,
     pieces_ok: bool,
     cleared: bool,
@@ -630,6 +731,15 @@ fn real_clamp(bytes: &[u8]) -> Option<Clamp> {
     let table = [file.widths.len(), file.heights.len(), file.depths.len(), file.italic_corrections.len()];
     let nl = file.lig_kern_program.instructions.len();
     let ne = file.extensible_chars.len();
+    let redirects: Vec<Option<u16>> = file
+        .lig_kern_program
+        .instructions
+        .iter()
+        .map(|i| match i.operation {
+            tfm::ligkern::lang::Operation::EntrypointRedirect(t, _) => Some(t),
+            _ => None,
+        })
+        .collect();
     let warnings = file.validate_and_fix();
     let cleared = warnings.iter().any(|w| {
         matches!(w, tfm::ValidationWarning::LigKernWarning(tfm::ligkern::lang::ValidationWarning::InfiniteLoop(_)))
@@ -644,7 +754,7 @@ fn real_clamp(bytes: &[u8]) -> Option<Clamp> {
             }
         }
     }
-    Some(Clamp { table, nl, ne, pre, post, pre_tags, post_tags: tags_of(&file), post_chars, pieces_ok, cleared })
+    Some(Clamp { table, nl, ne, pre, post, pre_tags, post_tags: tags_of(&file), redirects, post_chars, pieces_ok, cleared })
 }
 
 impl C10 {
@@ -930,6 +1040,30 @@ impl C10 {
             }
         }
 
+        // the sub-file bodies: the real `File::deserialize` vs the Lean `Body.readFile`
+        if i.starts_with("ok") && bytes.len() <= BODY_LIMIT {
+            let mb = drv.ask(&format!("body {}", join(bytes)));
+            if mb == "panic" {
+                out.fail(Kind::ModelVsSpec, &format!("{stage}body"), "body model panics on an accepted layout", String::new());
+            }
+            match caught(|| real_body(bytes)) {
+                Err(p) => out.fail(Kind::ImplPanic, &format!("{stage}body"), format!("panic {}", strip_msg(&p)), format!("File::deserialize panicked: {p}")),
+                Ok(ib) => {
+                    out.tag(format!("{stage}body:compared"));
+                    if ib != mb {
+                        let (a, b): (Vec<&str>, Vec<&str>) = (ib.split(' ').collect(), mb.split(' ').collect());
+                        let k = a.iter().zip(b.iter()).take_while(|(x, y)| x == y).count();
+                        out.fail(
+                            Kind::ImplVsModel,
+                            &format!("{stage}body"),
+                            "parsed file differs from Body.readFile",
+                            format!("first difference at field {k}: impl …{} model …{}", a[k.saturating_sub(6)..(k + 6).min(a.len())].join(" "), b[k.saturating_sub(6)..(k + 6).min(b.len())].join(" ")),
+                        );
+                    }
+                }
+            }
+        }
+
         // the whole conversion, as the binary runs it
         let pl = match caught(|| real_tftopl(bytes)) {
             Err(p) => {
@@ -1015,16 +1149,28 @@ impl C10 {
                 tfm::CharTag::List(n) => ("list", n.0 as usize, c.post_chars.contains(&n.0)),
                 tfm::CharTag::Extension(e) => ("ext", *e as usize, true),
             };
-            reqs.push(format!("tag {} {} {kind} {value} {}", c.nl, c.ne, exists as u8));
+            if kind == "lig" {
+                // exact model: the word at the entry point decides (unpackEntry)
+                let r = c.redirects.get(value).copied().flatten().map(|t| t as i64).unwrap_or(-1);
+                reqs.push(format!("lig {} {value} {r}", c.nl));
+            } else {
+                reqs.push(format!("tag {} {} {kind} {value} {}", c.nl, c.ne, exists as u8));
+            }
             items.push((ch, tag, kind));
         }
         let replies = if reqs.is_empty() { vec![] } else { drv.ask_many(&reqs) };
         for ((ch, tag, kind), m) in items.into_iter().zip(replies) {
             let kept = post.contains_key(ch);
             out.tag(format!("{stage}clamp:tag-{kind}-{}", if kept { "kept" } else { "dropped" }));
-            if m == "drop" && kept {
-                // S: a kept tag must satisfy TagOK (clampTag keeps exactly those)
+            let m_keep = m.starts_with("keep");
+            if !m_keep && kept {
+                // S: a kept tag must satisfy TagOK (clampTag / unpackEntry keep exactly those)
                 out.fail(Kind::ImplVsSpec, &stream, format!("{kind} tag kept although out of range"), format!("char {ch} tag {tag:?} nl {} ne {}", c.nl, c.ne));
+            }
+            // lig and ext tags: the model is exact in both directions (a list tag is also
+            // dropped when it closes a cycle, which the counts do not show)
+            if (kind == "lig" || kind == "ext") && m_keep && !kept && !c.cleared {
+                out.fail(Kind::ImplVsModel, &stream, format!("{kind} tag dropped although the model keeps it"), format!("char {ch} tag {tag:?} nl {} ne {} model {m}", c.nl, c.ne));
             }
         }
         if !c.pieces_ok {
